@@ -157,12 +157,17 @@ def bounds_tree_tie(chk, tier, r):
         if not keys:
             continue
         srt = "[ " + " ".join("[ %d %s ]" % (kk, " ".join(str(int(v)) for v in sb[i])) for i, kk in enumerate(keys)) + " ]"
-        model = untok(drive([f"btree {d} {ps} {srt}"])[0])
+        outs = drive([f"btree {d} {ps} {srt}", f"btreec {d} {ps} {srt}"])
+        model, coded = untok(outs[0]), untok(outs[1])
         impl = [None if np.isnan(row[0]) else [int(v) for v in row] for row in np.asarray(rt._bounds_tree)]
         chk.evaluated(len(impl))
         if model != impl:
             chk.tie_broken(f"correspondence C03 bounds_tree (Model/RTreeArr.lean boundsTree vs _build_hilbert_rtree): d={d} page_size={ps} rows={rows} "
                            f"impl={impl[:6]} model={str(model)[:200]}")
+            return
+        if coded != impl:
+            chk.tie_broken(f"correspondence C03 bounds_tree, coded bottom-up pass (Model/RTreeFill.lean fill vs _build_hilbert_rtree): d={d} page_size={ps} "
+                           f"rows={rows} impl={impl[:6]} model={str(coded)[:200]}")
             return
         chk.count("bounds_tree-compared")
 
